@@ -189,7 +189,14 @@ def run_cases(mod, tier, seed, shard, nshards, limit_s):
                                   f'{index}; remaining cases not run')
                 break
             try:
-                res = mod.run_case(case)
+                with case_watchdog(tier):
+                    res = mod.run_case(case)
+            except CaseTimeout:
+                # a wall clock only triggers the question; the verdict is
+                # taken on logical steps (see did_not_terminate)
+                res = did_not_terminate(mod, case, index, out)
+                if res is None:
+                    continue
             except Exception as ex:
                 res = escaped_exception(mod, case, ex)
             out.evaluations += 1
@@ -222,6 +229,102 @@ def run_cases(mod, tier, seed, shard, nshards, limit_s):
     return out
 
 
+class CaseTimeout(BaseException):
+    """Raised by the per-case wall-clock watchdog (SIGALRM)."""
+
+
+CASE_WALL_S = {'quick': 90, 'thorough': 180, 'rerun': 600}
+STEP_BUDGET = 40_000_000     # entries into desper functions per case; the
+                             # largest generated cases need well under 10^7
+
+
+class case_watchdog:
+    def __init__(self, tier):
+        self.seconds = CASE_WALL_S.get(tier, 180)
+        if tier != 'rerun' and os.environ.get('VF_CASE_WALL_S'):
+            self.seconds = float(os.environ['VF_CASE_WALL_S'])
+
+    def _fire(self, signum, frame):
+        raise CaseTimeout()
+
+    def __enter__(self):
+        import signal
+        self.old = signal.signal(signal.SIGALRM, self._fire)
+        signal.setitimer(signal.ITIMER_REAL, self.seconds)
+
+    def __exit__(self, *exc):
+        import signal
+        signal.setitimer(signal.ITIMER_REAL, 0)
+        signal.signal(signal.SIGALRM, self.old)
+        return False
+
+
+def did_not_terminate(mod, case, index, out):
+    """A case ran into the wall-clock watchdog. Run it again counting the
+    entries into desper functions (sys.monitoring, PY_START): if it uses up
+    a budget that no generated case comes near, the library did not
+    terminate on this input (a divergence, decided on logical steps); if it
+    finishes within the budget it was merely slow on a loaded machine
+    (inconclusive, never a violation)."""
+    from vf.core import Res, StepBudgetExceeded
+    mon = sys.monitoring
+    tool = 4
+    prefix = os.path.join(DESPER_ROOT, 'desper') + os.sep
+    state = {'n': 0}
+
+    def on_start(code, offset):
+        if not code.co_filename.startswith(prefix):
+            return mon.DISABLE
+        state['n'] += 1
+        if state['n'] > STEP_BUDGET:
+            raise StepBudgetExceeded(f'{state["n"]} steps in desper code')
+
+    def on_jump(code, offset, dest):
+        # loops that call nothing still jump
+        return on_start(code, offset)
+
+    events = mon.events.PY_START | mon.events.JUMP
+    mon.use_tool_id(tool, 'vf-termination')
+    mon.register_callback(tool, mon.events.PY_START, on_start)
+    mon.register_callback(tool, mon.events.JUMP, on_jump)
+    mon.set_events(tool, events)
+    exceeded = False
+    unfinished = False
+    try:
+        try:
+            with case_watchdog('rerun'):
+                mod.run_case(case)
+        except StepBudgetExceeded:
+            exceeded = True
+        except CaseTimeout:
+            unfinished = True
+        except BaseException:       # noqa: B902 - only termination matters
+            pass
+    finally:
+        mon.set_events(tool, 0)
+        mon.register_callback(tool, mon.events.PY_START, None)
+        mon.register_callback(tool, mon.events.JUMP, None)
+        mon.free_tool_id(tool)
+        mon.restart_events()
+    if unfinished:
+        out.errors.append(f'case {index} hit the wall-clock watchdog twice '
+                          f'without using up the step budget ({state["n"]} '
+                          'function entries and jumps in desper code): not '
+                          'judged')
+        return None
+    if not exceeded:
+        out.errors.append(f'case {index} hit the wall-clock watchdog but '
+                          f'finished within the step budget ({state["n"]} '
+                          'steps in desper code): slow, not judged')
+        return None
+    res = Res()
+    res.div(-1, 'did-not-terminate', 'an operation of this case did not '
+            f'finish within {STEP_BUDGET} function entries and jumps in desper '
+            '(logical step budget; the largest generated cases stay below '
+            '10^7)', 'termination', f'> {STEP_BUDGET} steps')
+    return res
+
+
 def escaped_exception(mod, case, ex):
     """An exception left run_case. If desper code is on the traceback the
     library raised (or let something raise) where the monitor expected a
@@ -249,12 +352,17 @@ def shrink(mod, case, div):
     """Greedy minimisation; every candidate is re-judged by the oracle."""
     runs = 0
     best, best_div = case, div
+    if div['kind'] == 'did-not-terminate':
+        return best, best_div, runs     # every candidate would run for long
 
     def still_fails(cand):
         nonlocal runs
         runs += 1
         try:
-            res = mod.run_case(cand)
+            with case_watchdog('quick'):
+                res = mod.run_case(cand)
+        except CaseTimeout:
+            return None
         except Exception as ex:
             try:
                 res = escaped_exception(mod, cand, ex)
